@@ -1,0 +1,94 @@
+//! Verification hooks (cargo feature `verif`, off by default).
+//!
+//! Nothing in here changes the behaviour of the library unless a monitor explicitly arms it:
+//! * re-exports of crate-private building blocks so that runtime monitors can drive them directly,
+//! * a thread-local logical step counter with an optional budget (bounded-progress checks),
+//! * a thread-local log / override of the random visiting order used by the SVC trainer.
+#![allow(missing_docs)]
+
+use std::cell::{Cell, RefCell};
+use std::collections::VecDeque;
+
+pub use crate::algorithm::sort::heap_select::HeapSelection;
+pub use crate::algorithm::sort::quick_sort::QuickArgSort;
+pub use crate::optimization::first_order::lbfgs::LBFGS;
+pub use crate::optimization::first_order::{FirstOrderOptimizer, OptimizerResult};
+pub use crate::optimization::line_search::{Backtracking, LineSearchMethod, LineSearchResult};
+pub use crate::optimization::{FunctionOrder, DF, F};
+
+use crate::algorithm::neighbour::bbd_tree::BBDTree;
+use crate::linalg::Matrix;
+use crate::math::num::RealNumber;
+
+/// Result of one assignment step of the filtering tree: (distortion, sums, counts, membership).
+pub type BbdClustering<T> = (T, Vec<Vec<T>>, Vec<usize>, Vec<usize>);
+
+/// Builds the (crate-private) BBD tree on `data` and runs one assignment step for `centroids`.
+pub fn bbd_clustering<T: RealNumber, M: Matrix<T>>(
+    data: &M,
+    centroids: &[Vec<T>],
+) -> BbdClustering<T> {
+    let (n, d) = data.shape();
+    let k = centroids.len();
+    let tree = BBDTree::new(data);
+    let mut sums = vec![vec![T::zero(); d]; k];
+    let mut counts = vec![0usize; k];
+    let mut membership = vec![0usize; n];
+    let distortion = tree.clustering(centroids, &mut sums, &mut counts, &mut membership);
+    (distortion, sums, counts, membership)
+}
+
+thread_local! {
+    static STEPS: Cell<u64> = Cell::new(0);
+    static BUDGET: Cell<u64> = Cell::new(u64::MAX);
+    static SVC_FORCED: RefCell<VecDeque<Vec<usize>>> = RefCell::new(VecDeque::new());
+    static SVC_LOG: RefCell<Vec<Vec<usize>>> = RefCell::new(Vec::new());
+}
+
+/// Payload prefix of the panic raised when the step budget is exhausted.
+pub const BUDGET_PANIC: &str = "verif-step-budget-exceeded";
+
+/// Counts one logical step of an unbounded loop; panics when the armed budget is exhausted.
+#[inline]
+pub fn tick(site: &'static str) {
+    let s = STEPS.with(|c| {
+        let v = c.get() + 1;
+        c.set(v);
+        v
+    });
+    if s > BUDGET.with(|b| b.get()) {
+        BUDGET.with(|b| b.set(u64::MAX));
+        panic!("{} site={} steps={}", BUDGET_PANIC, site, s);
+    }
+}
+
+/// Resets the step counter and arms a budget (u64::MAX = unlimited).
+pub fn set_step_budget(budget: u64) {
+    STEPS.with(|c| c.set(0));
+    BUDGET.with(|b| b.set(budget));
+}
+
+/// Steps counted since the last `set_step_budget`.
+pub fn steps() -> u64 {
+    STEPS.with(|c| c.get())
+}
+
+/// Queues visiting orders to be used (in this order) by the next calls of the SVC trainer.
+pub fn svc_force_orders(orders: Vec<Vec<usize>>) {
+    SVC_FORCED.with(|q| *q.borrow_mut() = orders.into());
+}
+
+/// Returns and clears the visiting orders used by the SVC trainer on this thread.
+pub fn svc_take_order_log() -> Vec<Vec<usize>> {
+    SVC_LOG.with(|l| std::mem::take(&mut *l.borrow_mut()))
+}
+
+pub(crate) fn svc_permutation_hook(drawn: Vec<usize>) -> Vec<usize> {
+    let n = drawn.len();
+    let used = match SVC_FORCED.with(|q| q.borrow_mut().pop_front()) {
+        Some(o) if o.len() == n => o,
+        _ => drawn,
+    };
+    SVC_LOG.with(|l| l.borrow_mut().push(used.clone()));
+    used
+}
